@@ -89,6 +89,7 @@ Outcome(c) == LET cand == Cand(st, Calls[c]) IN
 Flat(n) == <<n.t, n.i, n.k, n.x, n.sel, n.wh, n.grp, n.hv, n.ord, n.lim, IF n.l = st THEN 0 ELSE 1>>
 Shown(o) == IF o.r = "na" THEN -1 ELSE IF o.r = "ok" THEN Flat(o.n) ELSE [b |-> o.b]
 Export(out) == PrintT(ToJson([h |-> hist, k |-> Key(st), sch |-> SchemaOf(Expand(st)),
+                              asis |-> Collapse(SchemaOf(Expand(st))),      \* as-is model, identifies a known finding
                               ast |-> IF Size(st) <= AstDepth THEN Expand(st) ELSE NilS,
                               v |-> [c \in DOMAIN Calls |-> Shown(out[c])]]))
 
